@@ -82,6 +82,42 @@ fn answers(g: &DebruijnGraph<K, u16>, idx: &RefIndex) -> Result<u64, String> {
 
 pub fn run(opts: &Opts) -> i32 {
     let start = std::time::Instant::now();
+    // watchdog: a finish() that never returns (e.g. the index construction cycling) is a violation
+    let progress = std::sync::Arc::new(std::sync::atomic::AtomicU64::new(0));
+    {
+        let progress = progress.clone();
+        let replay_dir = opts.replay_dir.clone();
+        let (seed, tier) = (opts.seed, opts.tier.as_str());
+        let opts2 = opts.clone();
+        std::thread::spawn(move || {
+            let limit: u64 = std::env::var("VERIF_HANG_LIMIT_S").ok().and_then(|v| v.parse().ok()).unwrap_or(600);
+            let mut last = (0u64, std::time::Instant::now());
+            loop {
+                std::thread::sleep(std::time::Duration::from_millis(500));
+                let p = progress.load(std::sync::atomic::Ordering::Relaxed);
+                if p == u64::MAX {
+                    return;
+                }
+                if p != last.0 {
+                    last = (p, std::time::Instant::now());
+                } else if last.1.elapsed().as_secs() > limit {
+                    let _ = std::fs::create_dir_all(&replay_dir);
+                    let path = replay_dir.join("C19-c19-large-hang.json");
+                    let doc = json!({"property": "C19", "check": "c19-large", "engine": "S", "verif_seed": seed,
+                        "violation": {"class": "hang", "site": "BaseGraph::finish on a real pool (large graph)", "detail": format!("no progress for {} s after step {}", limit, p)},
+                        "replay": format!("sim-std c19-large --seed {} --tier {}", seed, tier)});
+                    let _ = std::fs::write(&path, serde_json::to_string_pretty(&doc).unwrap());
+                    println!("violation check=c19-large class=hang: finish() made no progress for {} s", limit);
+                    println!("VIOLATION property=C19 replay={}", path.display());
+                    let part = json!({"check": "c19-large", "property": "C19", "engine": "S (real pool; schedules NOT simulator-controlled)", "tier": tier, "seed": seed,
+                        "evaluations": p, "planned": p, "nontrivial_runs": 0, "distinct_nontrivial": 0, "rule": "aborted by the hang watchdog", "samples": [], "counters": {},
+                        "violations": 1, "replay_files": [path.display().to_string()], "known_findings_hit": [], "components": {}, "wall_s": 0});
+                    simcore::driver::write_part(&opts2, "c19-large", &part);
+                    std::process::exit(1);
+                }
+            }
+        });
+    }
     let n_cases = if opts.tier == Tier::Thorough { 6 } else { 1 };
     let mut samples = Vec::new();
     let mut violations = 0;
@@ -120,6 +156,7 @@ pub fn run(opts: &Opts) -> i32 {
                     }
                 };
                 evals += 1;
+                progress.fetch_add(1, std::sync::atomic::Ordering::Relaxed);
                 match answers(&g, &idx) {
                     Ok(d) if d == want => {}
                     Ok(_) => {
@@ -175,6 +212,7 @@ pub fn run(opts: &Opts) -> i32 {
         "known_findings_hit": [], "replay_files": replay_files,
         "components": {"real": ["BaseGraph::finish on real rayon pools", "boomphf (unmodified)", "finish_serial"], "stub": [], "simulated": [], "limits": ["uncontrolled schedules: observation, not simulation; reaches size-gated code paths that engines T/M cannot"]},
     });
+    progress.store(u64::MAX, std::sync::atomic::Ordering::Relaxed);
     simcore::driver::write_part(opts, "c19-large", &part);
     if violations > 0 {
         1
